@@ -19,8 +19,8 @@ pub fn property() -> Property {
     add::<SOrswot>(&mut jobs, 6000, 200_000, &[], 0.03);
     add::<SMVReg>(&mut jobs, 6000, 200_000, &[], 0.03);
     add::<MapOrswot>(&mut jobs, 6000, 200_000, &[Class::T1, Class::T3], 0.03);
-    add::<MapMVReg>(&mut jobs, 6000, 200_000, &[Class::T1, Class::T2, Class::T2b, Class::T5, Class::T3, Class::T6], 0.015);
-    add::<MapMapMVReg>(&mut jobs, 4000, 100_000, &[Class::T1, Class::T2, Class::T2b, Class::T5, Class::T3, Class::T6], 0.03);
+    add::<MapMVReg>(&mut jobs, 6000, 200_000, &[Class::T1, Class::T3, Class::T5], 0.015);
+    add::<MapMapMVReg>(&mut jobs, 4000, 100_000, &[Class::T1, Class::T3, Class::T5], 0.03);
     add::<SGList>(&mut jobs, 3000, 60_000, &[], 0.03);
     add::<SMerkle>(&mut jobs, 3000, 60_000, &[], 0.03);
     add::<SVClock>(&mut jobs, 2000, 40_000, &[], 0.03);
